@@ -38,6 +38,7 @@ Section DDoc.
       /\ k_leaf k = decor_new (raw_with_span (pos i, pos j0)) (raw_with_span (pos jb, pos jk)) /\ splits jb w1 jk
       /\ isrc s jb /\ (pos ja < pos i1)%N
       /\ pre = pre_text s path k /\ R = krepr s k
+      /\ val_fact v
       /\ (vok s v = true -> forall ks P z, pre_text s ks (with_prefix k P) = pre ->
             dline s (ks ++ [with_prefix k P], v) ++ z
             = raw_encode (traw s P) [] ++ (((pre ++ R) ++ w1 ++ [x3d] ++ w2 ++ o) ++ w ++ c) ++ [x0a] ++ z).
@@ -108,6 +109,9 @@ Section DDoc.
       pose proof (splits_pos _ _ _ S2) as P4. pose proof (splits_pos _ _ _ S3) as P5. pose proof (splits_pos _ _ _ Swc) as P6.
       pose proof (splits_pos _ _ _ Sle) as P7. cbn [length] in P3. lia. }
     split; [symmetry; exact Epre|]. split; [symmetry; exact EkR|].
+    split.
+    { destruct (GrammarValueSound.value_sound k2 v' k3 E3) as (tv0 & av0 & Htv0 & _ & (Hv1 & Hv2 & _ & Hv4 & _)).
+      exists tv0, av0. rewrite absv_decorate, vwf_decorate. auto. }
     intros Hs ks P z Eks. rewrite vok_decorate in Hs. unfold dline. cbn [fst snd].
     rewrite enc_split. unfold with_prefix.
     assert (E1 : decor_prefix (k_leaf (tkey s (set_leaf k (mkDecor (Some P) (d_suffix (k_leaf k)))))) (fst DEFAULT_KEY_DECOR) = raw_encode (traw s P) []).
@@ -197,9 +201,10 @@ Section DDoc.
        dline s (ks ++ [with_prefix k P], v) ++ z = raw_encode (traw s P) [] ++ body ++ [x0a] ++ z) ->
     isrc s j1 -> (pos ja < pos j1)%N -> at_start j1 -> splits j1 w i1 ->
     forall B0 ct, body = (pre ++ R) ++ B0 -> cj anyf (B0 ++ [x0a]) ct -> (forall z, qstop ((B0 ++ [x0a]) ++ z)) -> ws_tok w ->
+    val_fact v ->
     dinv (on_ws st0 (pos j1, pos i1)) i1 (out ++ ncr pend ++ w0 ++ body ++ [x0a]) j1 w.
   Proof.
-    intros [(items & Hur & Huc & Hdot & Himp & Hpath & Hok & Hsort & Hlt & Eout & Ht & Hi0 & Sp & Hst & Hcj) Hpo] Eo Hj0 S0 Hw0 Hw1 Rj HK Erepr Eja Hne Eleaf S1 Hjb Epre ER Hline Hj1 Hlt1 Hst1 Sw B0 ct Ebody HB0 HqB Hw.
+    intros [(items & Hur & Huc & Hdot & Himp & Hpath & Hok & Hsort & Hlt & Eout & Ht & Hi0 & Sp & Hst & Hcj) Hpo] Eo Hj0 S0 Hw0 Hw1 Rj HK Erepr Eja Hne Eleaf S1 Hjb Epre ER Hline Hj1 Hlt1 Hst1 Sw B0 ct Ebody HB0 HqB Hw Hvf.
     apply Forall_app in HK as [HKp HKk]. assert (HKk0 : K k) by (inversion HKk; assumption).
     destruct (on_keyval_all K st path k v st0 Eo Huc HKp) as (Er' & Ep' & Eq' & Ea' & Et' & Hfr & Huc' & Hperm).
     set (k' := with_prefix k (merged_prefix st k)) in *.
@@ -235,7 +240,7 @@ Section DDoc.
       rewrite !app_nil_r in El. fold k' in El. rewrite El, HP. unfold txt. rewrite <- !app_assoc. reflexivity. }
     assert (Hppos : ppos (PL k' v) = pos ja) by (apply (ppos_line k' v ja jb); [exact Erepr|exact Hne]).
     assert (Hitemc : sitem_cj s (PL k' v, txt)).
-    { cbn [sitem_cj]. intro Hv.
+    { cbn [sitem_cj]. split; [exact Hvf|]. intro Hv.
       assert (HR : exists b t', R = b :: t').
       { pose proof (krepr_tok s k (hkey_lkey s k HKk0)) as Hs. rewrite <- ER in Hs. destruct (simple_key_khead _ _ Hs) as (b & t' & -> & _). eauto. }
       assert (Hcp : exists cp, cj anyf (ncr pend) cp).
@@ -454,7 +459,7 @@ Section DDoc.
     apply cut_err_inv in H2. unfold keyval in H2. apply try_map_inv in H2 as (x & H2 & Hst).
     destruct (parse_keyval_render_d i x j1 Hi H2)
       as (path & k & v & j0 & ja & jb & jk & w0 & pre & R & w1 & w2 & t & a & o & wt & c & le & r & -> & Hw0 & Hw1 & Hw2 & Ht & Hwt & Hc & Hkt
-          & S0 & Sp & Hl & Hj1 & Hj0 & Rj & HK & Erepr & Eja & Hne & Eleaf & S1 & Hjb & Hlt & Epre & ER & Hline).
+          & S0 & Sp & Hl & Hj1 & Hj0 & Rj & HK & Erepr & Eja & Hne & Eleaf & S1 & Hjb & Hlt & Epre & ER & Hvf & Hline).
     destruct (isrc_splits s j1 w i1 Hj1 Sw) as [Hi1 _].
     exists w0, (((pre ++ R) ++ w1 ++ [x3d] ++ w2 ++ t) ++ wt ++ c), [SKeyVal (map k_key (path ++ [k])) a], (((pre ++ R) ++ w1 ++ [x3d] ++ w2 ++ o) ++ wt ++ c), le, w.
     split; [exact Hw0|]. split; [apply itx_keyval; assumption|]. split; [exact Hw|].
@@ -475,7 +480,7 @@ Section DDoc.
     - destruct (cj_kv_rest w1 w2 t a o wt c Hw1 Hw2 Ht Hwt Hc) as (ct & Hct & Hqct).
       apply (dinv_keyval st i out i0 pend path k v st' j0 ja jb jk w0 pre R w1 r (((pre ++ R) ++ w1 ++ [x3d] ++ w2 ++ o) ++ wt ++ c) j1 w i1
                HI Eo Hj0 S0 Hw0 Hw1 Rj HK Erepr Eja Hne Eleaf S1 Hjb Epre ER Hline Hj1 Hlt Hst1 Sw (w1 ++ [x3d] ++ w2 ++ o ++ wt ++ c) ct);
-        [rewrite <- !app_assoc; reflexivity|exact Hct|exact Hqct|exact Hw].
+        [rewrite <- !app_assoc; reflexivity|exact Hct|exact Hqct|exact Hw|exact Hvf].
     - rewrite (ncr_ws w Hw).
       assert (El : le_out [SKeyVal (map k_key (path ++ [k])) a] le = [x0a]) by (destruct Hl as [[-> | ->] | [-> _]]; reflexivity).
       rewrite El. rewrite <- !app_assoc. reflexivity.
